@@ -242,7 +242,7 @@ Section Main.
       destruct (ids_ok W lp Hm) as (_ & _ & Hck).
       assert (Hhit : hit v0 = true).
       { unfold PositionBindLook.hit, var_hit. unfold v0 at 1. cbn [v_name]. rewrite Hp. cbn [andb].
-        apply (icp_before W HW line col Hcol v0); [apply (cok_bounds W _ Hck)|exact (proj1 Hcur)|exact I]. }
+        apply (icp_before W HW line col Hcol v0); [apply (cok_bounds W _ Hck)|exact (proj1 Hcur)|exact I|reflexivity]. }
       exists v0. split; [|reflexivity]. rewrite Erev, find_app, (find_none_all _ _ Hl), find_app, (find_none_all _ _ Hinv).
       cbn [find]. rewrite Hhit. reflexivity.
   Qed.
@@ -618,7 +618,7 @@ Section Main.
         assert (Hhit : hit v = true).
         { unfold PositionBindLook.hit, var_hit. change (v_name v) with n0. rewrite Hn, beq_bytes_refl'. cbn [andb].
           destruct (ids_ok W vl (MG_in W _ _ HMh (proj1 Hidm))) as (_ & _ & Hck).
-          apply (icp_before W HW line col Hcol v); [apply (cok_bounds W _ Hck)|exact (proj1 Hcur)|exact I]. }
+          apply (icp_before W HW line col Hcol v); [apply (cok_bounds W _ Hck)|exact (proj1 Hcur)|exact I|reflexivity]. }
         rewrite Hhit. reflexivity.
     - (* the body *)
       apply (for_body_cc HDR b l _ [v] flv (slv + 1) en o Hcb Hpb HM); auto.
@@ -626,7 +626,7 @@ Section Main.
         * eapply scm_mono; [|exact Hs1]. apply incl_appr. apply incl_appl. apply incl_refl.
         * eapply scm_mono; [|exact Hs2]. apply incl_appr. apply incl_appr. apply incl_appl. apply incl_refl.
         * eapply scm_mono; [|exact Hs3]. apply incl_appr. apply incl_appr. apply incl_appr. apply incl_refl.
-      + constructor; [|constructor]. split; [|exact I]. cbn [v_loc v].
+      + constructor; [|constructor]. split; [|split; [exact I|split; [reflexivity|exact I]]]. cbn [v_loc v].
         eapply idm_mono; [|apply id_marks_idm]. unfold HDR. apply incl_appl. apply incl_refl.
   Qed.
 
@@ -811,7 +811,7 @@ Section Main.
         rewrite E. cbn [find].
         assert (Hhit : var_hit n pl v = true).
         { unfold var_hit. change (v_name v) with n0. rewrite Hn, beq_bytes_refl'. cbn [andb].
-          apply (icp_before W HW line col Hcol v); [exact Hsc|exact (proj1 Hcur)|]. cbn [v_ref v]. left. exact Hcont. }
+          apply (icp_before W HW line col Hcol v); [exact Hsc|exact (proj1 Hcur)| |reflexivity]. cbn [v_ref v]. left. exact Hcont. }
         rewrite Hhit. reflexivity.
     - (* the function *)
       destruct (fname_func_MG nl f ps pls b lf va HM) as [HMf Hincl].
@@ -837,7 +837,7 @@ Section Main.
       pose proof (cc_ext _ _ _ en _ [v] [] Hcc (Forall_nil _)) as Hx. cbn [app] in Hx. apply Hx.
       + constructor; [|constructor]. split; [apply (cok_bounds W _ Hck)|exact Hcurnl].
       + constructor; [|constructor]. intros _.
-        apply (icp_before W HW line col Hcol v); [apply (cok_bounds W _ Hck)|exact Hcurnl|]. cbn [v_ref v]. left. exact Hcont.
+        apply (icp_before W HW line col Hcol v); [apply (cok_bounds W _ Hck)|exact Hcurnl| |reflexivity]. cbn [v_ref v]. left. exact Hcont.
   Qed.
 
   Lemma icp_false_ref v :
@@ -848,8 +848,15 @@ Section Main.
     end -> is_correct_position v pl = false.
   Proof.
     intros H. unfold is_correct_position. destruct (negb (loc_before (v_loc v) pl)); [reflexivity|].
+    destruct (init_hides v pl); [reflexivity|].
     destruct (v_ref v); try contradiction; try (rewrite H; reflexivity).
     destruct H as [H1 H2]. rewrite H1, H2. reflexivity.
+  Qed.
+
+  (* the cursor is inside the initialiser list of the statement that declares v *)
+  Lemma icp_false_init v : init_hides v pl = true -> is_correct_position v pl = false.
+  Proof.
+    intros H. unfold is_correct_position. destruct (negb (loc_before (v_loc v) pl)); [reflexivity|]. rewrite H. reflexivity.
   Qed.
 
   Lemma not_contains_earlier a b : cok W a -> 0 <= sc b < W -> lo W b < lo W a -> loc_contains a b = false.
@@ -895,46 +902,45 @@ Section Main.
   Proof.
     intros Hlen Hle Hces Hpes flv slv reg en o HM Hin Hat Hn. cbn [m2_stat sk_stat fst snd] in HM |- *.
     set (IDL := flat_map id_marks ls) in *. set (ME := flat_map m2_exp es) in *.
-    set (LV := local_vars es (combine ns ls) RNone).
-    destruct (MG_app W _ _ HM) as (HMi & HMe & Hcross).
+    set (IL := init_loc ns ls es l) in *.
+    set (LV := local_vars es (combine ns ls) RNone IL).
+    destruct (MG_app W _ _ HM) as (HMi & HMr & Hcross0).
+    assert (HMe : MG W ME).
+    { destruct IL as [il|]; cbn [region_marks] in HMr; [exact (MG_open_close W _ _ HMr)|exact HMr]. }
+    assert (Hcross : cross W IDL ME).
+    { intros x y Hx Hy. apply Hcross0; [exact Hx|apply incl_region_marks; exact Hy]. }
     assert (Hmi : forall m, In m IDL -> mark_ok W m = true) by (intros m Hm; exact (MG_in W _ _ HMi Hm)).
     assert (Hme : forall m, In m ME -> mark_ok W m = true) by (intros m Hm; exact (MG_in W _ _ HMe Hm)).
     assert (Hlec : (length es <= length (combine ns ls))%nat) by (rewrite combine_length; lia).
-    destruct (in_b_local flv slv reg ns ls at_ es l en o Hin) as [(i & e & o0 & Hnth & Ho0 & Hrt & Htag)|((nm & lx) & bb & Hnl & E)].
-    - (* inside initialiser i *)
+    assert (Htab : forall e, In e es -> tab_of_exp e = None).
+    { intros e He. apply frag_tab. rewrite Forall_forall in Hces. exact (proj1 (Hces e He)). }
+    destruct (in_b_local flv slv reg ns ls at_ es l en o Hin) as [(i & e & o0 & Hnth & Ho0 & Hrt)|((nm & lx) & bb & Hnl & E)].
+    - (* inside initialiser i: every variable of the statement is hidden (the cursor lies in their InitLoc), whatever
+         the shape of the initialiser and whatever the class tags say *)
       pose proof (nth_error_In _ _ Hnth) as He.
       pose proof (at_cur_retag _ _ Hrt Hat) as Hat0. pose proof (name_retag _ _ Hrt Hn) as Hn0.
       destruct (exps_at es Hces Hpes flv slv reg en e o0 He Ho0 HMe Hat0 Hn0) as (Hcc0 & Hidm0 & HMe0).
-      pose proof (cc_right IDL ME [] (flat_map sk_exp es) [] en o0 HM Hcc0 Hat0 (Forall_nil _)) as Hcc1. cbn [app] in Hcc1.
+      pose proof (cc_mono ME (region_marks IL ME) _ _ _ _ (incl_region_marks IL ME) Hcc0) as Hcc0'.
+      pose proof (cc_right IDL (region_marks IL ME) [] (flat_map sk_exp es) [] en o0 HM Hcc0' Hat0 (Forall_nil _)) as Hcc1.
+      cbn [app] in Hcc1.
+      pose proof (cc_cur _ _ _ _ _ HM Hcc1 Hat0) as Hcur0.
       pose proof (cc_retag _ _ _ _ _ _ Hrt Hcc1) as Hcc2.
       apply (cc_feq _ _ ([] ++ rev LV)); [reflexivity|]. apply cc_hidden; [exact Hcc2|].
-      intros Hd ien Hen Hcls Hnone. unfold classB_ok in Hcls.
-      assert (Ec : s_cls o = []) by (destruct (s_cls o); [reflexivity|discriminate]).
-      pose proof Hrt as Hrt'. destruct Hrt' as (_ & _ & _ & _ & _ & _ & Heq). pose proof (Heq Ec) as Eo. subst o0.
-      assert (Hou : outer_use en o = true).
-      { apply (outer_use_of_none en ien o (proj1 Hcc2) Hd Hen). rewrite Hn. exact Hnone. }
-      pose proof (cc_cur _ _ _ _ _ HM Hcc2 Hat) as Hcur.
+      intros Hd ien Hen _ Hnone.
       apply Forall_rev. apply Forall_forall. intros v Hv.
       destruct (beq_bytes (v_name v) n) eqn:Eb; [|apply nohit_name; exact Eb].
-      assert (Hnin : name_in (s_name o) ns = true).
-      { rewrite Hn. unfold name_in. apply existsb_exists. exists (v_name v). split; [exact (local_names_in ns ls es v Hlec Hv)|].
-        rewrite beq_bytes_sym. exact Eb. }
-      pose proof (Htag Ec Hou Hnin) as Hprot. rewrite Hn in Hprot. unfold prot in Hprot.
-      apply andb_true_iff in Hprot. destruct Hprot as [Hprot Href]. apply andb_true_iff in Hprot. destruct Hprot as [Hcnt Hnth2].
-      apply Nat.eqb_eq in Hcnt.
-      destruct (local_entry_of_name ns ls es i e n v Hlen Hle Hnth Hcnt Hnth2 Hv Eb) as [Hvr Hvl].
-      unfold PositionBindLook.hit, var_hit. rewrite Eb. cbn [andb]. apply icp_false_ref. rewrite Hvr.
-      pose proof (ref_contains_cursor e (s_loc o) HMe0 Hidm0 Hcur) as Hrc.
-      destruct (ref_of_exp e) as [|fl|fl|fl] eqn:Er; [discriminate| | |].
-      + destruct Hrc as (Hc1 & Hok & Hopen). split; [|exact Hc1].
-        assert (Hidv : idm (v_loc v) IDL) by (apply idm_in_ids; exact Hvl).
-        assert (HoM : In (MOpen fl) ME) by (apply (incl_flat_map_in m2_exp es e He); exact Hopen).
-        destruct (Hcross _ _ (proj2 Hidv) HoM) as [_ Hlt]. specialize (Hlt eq_refl eq_refl). cbn [mark_key] in Hlt.
-        pose proof (id_lo_lt_hi _ (Hmi _ (proj1 Hidv))) as Hlh.
-        destruct (ids_ok W _ (Hmi _ (proj1 Hidv))) as (_ & _ & Hck).
-        apply not_contains_earlier; [exact Hok|apply (cok_bounds W _ Hck)|lia].
-      + exact (proj1 Hrc).
-      + exact (proj1 Hrc).
+      unfold PositionBindLook.hit, var_hit. rewrite Eb. cbn [andb]. apply icp_false_init.
+      unfold init_hides. rewrite (local_vars_init IL es (combine ns ls) RNone v Hv).
+      rewrite (local_vars_tab IL es (combine ns ls) RNone v Htab Hv).
+      assert (Hidm1 : idm (s_loc o0) ME).
+      { eapply idm_mono; [apply (incl_flat_map_in m2_exp es e He)|exact Hidm0]. }
+      destruct IL as [il|] eqn:EIL.
+      + cbn [region_marks] in HMr.
+        destruct (open_close_cur W line col il ME (s_loc o0) HMr Hidm1 Hcur0) as [Hc Hok].
+        rewrite (proj2 (loc_contains_iff W HW line col Hcol il Hok) Hc). reflexivity.
+      + (* there is an initialiser list: es and ns are not empty *)
+        exfalso. unfold IL, init_loc in EIL. destruct es as [|e0 es0]; [destruct He|].
+        destruct ns as [|n0 ns0]; [destruct Hv|discriminate EIL].
     - (* a declared name *)
       subst o. cbn [s_name decl_occ fst] in Hn. cbn [fst snd] in *.
       assert (Hin2 : In (nm, lx) (combine ns ls)) by (apply in_combine_l in Hnl; exact Hnl).
@@ -943,12 +949,12 @@ Section Main.
       assert (Hcur : CUR lx).
       { destruct Hat as [H1 H2]. apply (cur_keys W line col); auto. apply Hmi. exact (proj1 Hidm). }
       assert (Hv0 : exists v0, In v0 LV /\ v_name v0 = nm /\ v_loc v0 = lx).
-      { pose proof (local_vars_shape es (combine ns ls) RNone Hlec) as Hs. rewrite <- Hs in Hin2.
+      { pose proof (local_vars_shape IL es (combine ns ls) RNone Hlec) as Hs. rewrite <- Hs in Hin2.
         apply in_map_iff in Hin2. destruct Hin2 as (v0 & E & Hv0). injection E as E1 E2. eauto. }
       destruct Hv0 as (v0 & Hv0 & Hv0n & Hv0l).
       assert (Hlocs : exists rest, ls = map v_loc LV ++ rest).
       { destruct (combine_snd_prefix ns ls) as (rest & Er). exists rest. rewrite Er at 1. f_equal.
-        rewrite <- (local_vars_shape es (combine ns ls) RNone Hlec) at 1. rewrite map_map. reflexivity. }
+        rewrite <- (local_vars_shape IL es (combine ns ls) RNone Hlec) at 1. rewrite map_map. reflexivity. }
       destruct Hlocs as (rest & Els).
       assert (HMl : MG W (flat_map id_marks (map v_loc LV))).
       { unfold IDL in HMi. rewrite Els, flat_map_app in HMi. exact (proj1 (MG_app W _ _ HMi)). }
@@ -959,8 +965,14 @@ Section Main.
       assert (Hhit : hit v0 = true).
       { unfold PositionBindLook.hit, var_hit. rewrite Hv0n, Hn, beq_bytes_refl'. cbn [andb].
         destruct (ids_ok W lx (Hmi _ (proj1 Hidm))) as (_ & _ & Hck).
-        apply (icp_before W HW line col Hcol v0); [rewrite Hv0l; apply (cok_bounds W _ Hck)|rewrite Hv0l; exact (proj1 Hcur)|].
-        pose proof (local_vars_refm ME es (combine ns ls) RNone v0 Hv0 I (fun e He => incl_flat_map_in m2_exp es e He)) as Hrm.
+        apply (icp_before W HW line col Hcol v0); [rewrite Hv0l; apply (cok_bounds W _ Hck)|rewrite Hv0l; exact (proj1 Hcur)| |].
+        2:{ (* the cursor is on a declared name: in front of the initialiser list *)
+            unfold init_hides. rewrite (local_vars_init IL es (combine ns ls) RNone v0 Hv0).
+            destruct IL as [il|] eqn:EIL; [|reflexivity]. cbn [region_marks] in HMr, Hcross0.
+            assert (Ho : In (MOpen il) (MOpen il :: ME ++ [MClose il])) by (left; reflexivity).
+            destruct (Hcross0 _ _ (proj2 Hidm) Ho) as [_ Hlt]. specialize (Hlt eq_refl eq_refl). cbn [mark_key] in Hlt.
+            rewrite (not_contains_after W HW line col Hcol il (MG_in W _ _ HMr Ho)) by (destruct Hcur; lia). reflexivity. }
+        pose proof (local_vars_refm ME IL es (combine ns ls) RNone v0 Hv0 I (fun e He => incl_flat_map_in m2_exp es e He)) as Hrm.
         destruct (v_ref v0) as [|fl|fl|fl]; [exact I| | |]; cbn [refm] in Hrm.
         - right. destruct Hrm as [Ho _]. destruct (Hcross _ _ (proj2 Hidm) Ho) as [_ Hlt]. specialize (Hlt eq_refl eq_refl). cbn [mark_key] in Hlt.
           apply (not_contains_after W HW line col Hcol fl (Hme _ Ho)). destruct Hcur. lia.
@@ -993,8 +1005,8 @@ Section Main.
     intros H. apply Forall_forall. intros v Hv. apply in_concat in Hv. destruct Hv as (vs & Hvs & Hv).
     apply in_rev in Hvs. apply in_map_iff in Hvs. destruct Hvs as (s & E & Hs). subst vs.
     rewrite Forall_forall in H. destruct (proj1 (proj2 sk_marks) s (H s Hs)) as [_ Hvm]. rewrite Forall_forall in Hvm.
-    destruct (Hvm v Hv) as [A B]. pose proof (incl_flat_map_in m2_stat l s Hs) as Hi.
-    split; [eapply idm_mono|eapply refm_mono]; eauto.
+    pose proof (incl_flat_map_in m2_stat l s Hs) as Hi.
+    pose proof (vm_mono _ _ [v] Hi (Forall_cons _ (Hvm v Hv) (Forall_nil _))) as Hv1. inversion Hv1; assumption.
   Qed.
 
   Lemma seq_env flv slv reg l en : Forall core_s l ->
